@@ -128,7 +128,7 @@ Proof.
   intros valid rules st o. destruct o as [| i req v | i req | i req | i | req v]; cbn [step]; [| | | | |now left].
   - now left.
   - left. destruct (nth_error (st_txs st) i); [|reflexivity]. destruct (set_writes_g rules req v) as [[] ws]; reflexivity.
-  - left. destruct (nth_error (st_txs st) i); [|reflexivity]. destruct (unset_paths rules req) as [[] ps]; reflexivity.
+  - left. destruct (nth_error (st_txs st) i); [|reflexivity]. destruct (unset_paths_g rules req) as [[] ps]; reflexivity.
   - left. now destruct (nth_error (st_txs st) i).
   - destruct (nth_error (st_txs st) i) as [t|] eqn:N; [|now left].
     destruct (tx_commit valid t (st_bag st)) as [b|] eqn:C; [|now left]. right. exists i, t, b. auto.
@@ -565,40 +565,122 @@ Proof.
 Qed.
 
 (* ------------------------------------------------------------------ commit order with Unset deltas as well *)
-Lemma bag_unset_unfold : forall k k2 r2 l, bag_unset (k :: k2 :: r2) l =
-  match lookup k l with
-  | None | Some Null => Some l
-  | Some (Obj l') => match bag_unset (k2 :: r2) l' with Some x => Some (aset k (Obj x) l) | None => None end
-  | Some (Atom _) => None
+(* divergence of a path from an Unset path that may carry match-all sub-keys: they differ at a position where both
+   have literal keys *)
+Fixpoint pdiverge (q p : path) : bool :=
+  match q, p with
+  | k :: q', k' :: p' => if is_ph_key k || is_ph_key k' then pdiverge q' p'
+                         else if k =? k' then pdiverge q' p' else true
+  | _, _ => false
+  end.
+
+Lemma pdiverge_nil_r : forall q, pdiverge q [] = false.
+Proof. destruct q; reflexivity. Qed.
+
+Lemma pdiverge_diverge : forall q p, pdiverge q p = true -> diverge q p = true.
+Proof.
+  induction q as [|k q IH]; intros [|k' p] H; cbn in H; try discriminate.
+  rewrite diverge_cons. destruct (is_ph_key k || is_ph_key k').
+  - rewrite (IH _ H). now destruct (k =? k').
+  - destruct (k =? k'); [now apply IH|reflexivity].
+Qed.
+
+Fixpoint lit_path (p : path) : bool := match p with [] => true | k :: r => negb (is_ph_key k) && lit_path r end.
+
+Lemma pdiverge_lit : forall q p, lit_path q = true -> lit_path p = true -> pdiverge q p = diverge q p.
+Proof.
+  induction q as [|k q IH]; intros [|k' p] Lq Lp;
+    try (unfold diverge; cbn; rewrite ?andb_false_r; reflexivity).
+  cbn in Lq, Lp. cbn [pdiverge].
+  - apply andb_prop in Lq. apply andb_prop in Lp. destruct Lq as [A Lq]. destruct Lp as [B Lp].
+    rewrite diverge_cons. destruct (is_ph_key k); [discriminate|]. destruct (is_ph_key k'); [discriminate|]. cbn.
+    destruct (k =? k'); [now apply IH|reflexivity].
+Qed.
+
+Definition ukey (r : path) (acc : option bag) (key : key) : option bag :=
+  match acc with
+  | None => None
+  | Some cur =>
+      match lookup key cur with
+      | None | Some Null => Some cur
+      | Some (Obj l') => match bag_unset_g r l' with
+                         | None => None
+                         | Some None => Some (aremove key cur)
+                         | Some (Some x) => Some (aset key (Obj x) cur)
+                         end
+      | Some (Atom _) => None
+      end
+  end.
+
+Lemma bag_unset_g_unfold : forall k k2 r2 l, bag_unset_g (k :: k2 :: r2) l =
+  match (if is_ph_key k then fold_left (ukey (k2 :: r2)) (map fst l) (Some l) else ukey (k2 :: r2) (Some l) k) with
+  | None => None
+  | Some l' => Some (Some l')
   end.
 Proof. reflexivity. Qed.
 
-Lemma bag_unset_keeps : forall p q l l' t, bag_unset p l = Some l' -> diverge q p = true ->
+Lemma fold_ukey_none : forall r keys, fold_left (ukey r) keys None = None.
+Proof. induction keys; cbn; auto. Qed.
+
+Lemma unset_g_keeps : forall p q l res t, bag_unset_g p l = Some res -> pdiverge q p = true ->
+  bag_get q l = BOk t -> exists l', res = Some l' /\ bag_get q l' = BOk t.
+Proof.
+  induction p as [|k rp IH]; intros q l res t H D G.
+  - now rewrite pdiverge_nil_r in D.
+  - destruct q as [|k' q']; [discriminate|]. cbn [pdiverge] in D. destruct rp as [|k2 r2].
+    + rewrite pdiverge_nil_r in D. destruct (is_ph_key k' || is_ph_key k) eqn:P; [discriminate|].
+      apply orb_false_elim in P. destruct P as [_ Pk]. destruct (k' =? k) eqn:E; [discriminate|].
+      cbn in H. rewrite Pk in H. injection H as <-. eexists. split; [reflexivity|].
+      cbn [bag_get] in *. rewrite lookup_aremove, E. exact G.
+    + rewrite bag_unset_g_unfold in H.
+      assert (STEP : forall cur key cur', ukey (k2 :: r2) (Some cur) key = Some cur' ->
+                bag_get (k' :: q') cur = BOk t -> (key <> k' \/ pdiverge q' (k2 :: r2) = true) ->
+                bag_get (k' :: q') cur' = BOk t).
+      { intros cur key cur' U Gc C. cbn [ukey] in U. destruct (k' =? key) eqn:E.
+        - assert (k' = key) by lia; subst key. destruct C as [C|C]; [congruence|].
+          destruct q' as [|k3 q3]; [discriminate|]. cbn [bag_get] in Gc |- *.
+          destruct (lookup k' cur) as [[| z | lk]|] eqn:EL; try discriminate.
+          destruct (bag_unset_g (k2 :: r2) lk) as [rs|] eqn:UU; [|discriminate].
+          destruct (IH (k3 :: q3) lk rs t UU C Gc) as (x & -> & Gx). injection U as <-.
+          now rewrite lookup_aset_eq.
+        - assert (LK : forall c, lookup k' c = lookup k' cur -> bag_get (k' :: q') c = BOk t).
+          { intros c Ec. cbn [bag_get] in Gc |- *. now rewrite Ec. }
+          destruct (lookup key cur) as [[| z | lk]|]; try (injection U as <-; exact Gc); try discriminate.
+          destruct (bag_unset_g (k2 :: r2) lk) as [[x|]|]; try discriminate; injection U as <-; apply LK.
+          + now rewrite lookup_aset, E.
+          + now rewrite lookup_aremove, E. }
+      destruct (is_ph_key k) eqn:Pk.
+      * rewrite orb_true_r in D.
+        assert (FOLD : forall keys cur cur', fold_left (ukey (k2 :: r2)) keys (Some cur) = Some cur' ->
+                  bag_get (k' :: q') cur = BOk t -> bag_get (k' :: q') cur' = BOk t).
+        { induction keys as [|key keys IHk]; intros cur cur' F Gc; cbn [fold_left] in F.
+          - now injection F as <-.
+          - destruct (ukey (k2 :: r2) (Some cur) key) as [c1|] eqn:U; [|now rewrite fold_ukey_none in F].
+            eapply IHk; eauto. }
+        destruct (fold_left (ukey (k2 :: r2)) (map fst l) (Some l)) as [l1|] eqn:F; [|discriminate].
+        injection H as <-. eexists. split; [reflexivity|]. eapply FOLD; eauto.
+      * rewrite orb_false_r in D.
+        destruct (ukey (k2 :: r2) (Some l) k) as [l1|] eqn:U; [|discriminate]. injection H as <-.
+        eexists. split; [reflexivity|]. eapply STEP; eauto.
+        destruct (is_ph_key k'); [now right|]. destruct (k' =? k) eqn:E; [now right|left; lia].
+Qed.
+
+Lemma bag_unset_keeps : forall p q l l' t, bag_unset p l = Some l' -> pdiverge q p = true ->
   bag_get q l = BOk t -> bag_get q l' = BOk t.
 Proof.
-  induction p as [|k r IH]; intros q l l' t H D G.
-  - unfold diverge in D. cbn in D. now rewrite andb_false_r in D.
-  - destruct q as [|k' q']; [discriminate|]. rewrite diverge_cons in D.
-    destruct r as [|k2 r2].
-    + cbn in H. injection H as <-. destruct (k' =? k) eqn:E.
-      * unfold diverge in D. cbn in D. now rewrite andb_false_r in D.
-      * cbn [bag_get] in *. rewrite lookup_aremove, E. exact G.
-    + rewrite bag_unset_unfold in H. destruct (lookup k l) as [[| z | lk]|] eqn:EL; try (injection H as <-; exact G); try discriminate.
-      destruct (bag_unset (k2 :: r2) lk) as [x|] eqn:U; [|discriminate]. injection H as <-.
-      cbn [bag_get] in *. rewrite lookup_aset. destruct (k' =? k) eqn:E; [|exact G].
-      assert (k' = k) by lia; subst k'. rewrite EL in G.
-      destruct q' as [|k3 q3]; [discriminate|]. eapply IH; eauto.
+  intros p q l l' t H D G. unfold bag_unset in H. destruct (bag_unset_g p l) as [res|] eqn:U; [|discriminate].
+  destruct (unset_g_keeps _ _ _ _ _ U D G) as (x & -> & Gx). now injection H as <-.
 Qed.
 
 Definition has_path (d : delta) : Prop := fst d <> [].
 
 Lemma apply_delta_keeps : forall b d b' q t, has_path d -> apply_delta b d = Some b' -> q <> [] ->
-  diverge q (fst d) = true -> bag_get q b = BOk t -> bag_get q b' = BOk t.
+  pdiverge q (fst d) = true -> bag_get q b = BOk t -> bag_get q b' = BOk t.
 Proof.
   intros b [p x] b' q t HP H NQ D G. cbn in *. unfold apply_delta in H. cbn [fst snd] in H.
   assert (S : forall y, y <> Null -> Some (bag_set p y b) = Some b' -> bag_get q b' = BOk t).
   { intros y NY [= <-]. rewrite bag_get_node by exact NQ. rewrite bag_set_obj by exact HP.
-    apply bnode_tset_diverge; [exact D|]. now rewrite <- bag_get_node. }
+    apply bnode_tset_diverge; [now apply pdiverge_diverge|]. now rewrite <- bag_get_node. }
   destruct x as [| z | l].
   - eapply bag_unset_keeps; eauto.
   - destruct p; [congruence|]. apply (S (Atom z)); [discriminate|exact H].
@@ -606,7 +688,7 @@ Proof.
 Qed.
 
 Lemma apply_deltas_keep : forall ds b b' q t, Forall has_path ds -> apply_deltas b ds = Some b' -> q <> [] ->
-  (forall d, In d ds -> diverge q (fst d) = true) -> bag_get q b = BOk t -> bag_get q b' = BOk t.
+  (forall d, In d ds -> pdiverge q (fst d) = true) -> bag_get q b = BOk t -> bag_get q b' = BOk t.
 Proof.
   induction ds as [|d r IH]; intros b b' q t F H NQ D G; cbn in H.
   - now injection H as <-.
@@ -617,7 +699,7 @@ Qed.
 
 Lemma apply_deltas_win : forall ds1 d ds2 b b', Forall has_path (ds1 ++ d :: ds2) -> snd d <> Null ->
   apply_deltas b (ds1 ++ d :: ds2) = Some b' ->
-  (forall d', In d' ds2 -> diverge (fst d) (fst d') = true) ->
+  (forall d', In d' ds2 -> pdiverge (fst d) (fst d') = true) ->
   bag_get (fst d) b' = BOk (strip (snd d)).
 Proof.
   intros ds1 d ds2 b b' F NV H D. rewrite apply_deltas_app in H.
@@ -635,11 +717,11 @@ Theorem commit_order_no_lost_update_g : forall valid t1 t2 b b1 b2,
   Forall has_path (tx_deltas t1) -> Forall has_path (tx_deltas t2) ->
   tx_commit valid t1 b = Some b1 -> tx_commit valid t2 b1 = Some b2 ->
   (forall ds1 d ds2, tx_deltas t1 = ds1 ++ d :: ds2 -> snd d <> Null ->
-     (forall d', In d' ds2 -> diverge (fst d) (fst d') = true) ->
-     (forall d', In d' (tx_deltas t2) -> diverge (fst d) (fst d') = true) ->
+     (forall d', In d' ds2 -> pdiverge (fst d) (fst d') = true) ->
+     (forall d', In d' (tx_deltas t2) -> pdiverge (fst d) (fst d') = true) ->
      bag_get (fst d) b2 = BOk (strip (snd d))) /\
   (forall ds1 d ds2, tx_deltas t2 = ds1 ++ d :: ds2 -> snd d <> Null ->
-     (forall d', In d' ds2 -> diverge (fst d) (fst d') = true) ->
+     (forall d', In d' ds2 -> pdiverge (fst d) (fst d') = true) ->
      bag_get (fst d) b2 = BOk (strip (snd d))).
 Proof.
   intros valid t1 t2 b b1 b2 F1 F2 C1 C2. unfold tx_commit in C1, C2.
@@ -652,4 +734,223 @@ Proof.
     eapply apply_deltas_keep; eauto.
     apply Forall_app in F1. destruct F1 as [_ F1]. now inversion F1.
   - intros ds1 d ds2 E NV D. rewrite E in E2, F2. eapply apply_deltas_win; eauto.
+Qed.
+
+(* ------------------------------------------------------------------ the whole transaction model (relation) *)
+Lemma lits_parts_key : forall sp p, lits sp = Some p -> parts_key sp = p.
+Proof.
+  induction sp as [|[k|n] sp IH]; intros p H; cbn in H.
+  - now injection H as <-.
+  - destruct (lits sp) as [p0|]; [|discriminate]. injection H as <-. cbn. f_equal. now apply IH.
+  - discriminate.
+Qed.
+
+(* View.Unset, every case (unfilled placeholders included): the Unset paths are the rendered filled storage paths of
+   matching writeable rules *)
+Theorem unset_paths_allowed_g : forall rules req ps p, unset_paths_g rules req = (ROk, ps) -> In p ps ->
+  exists r sp sf, In r rules /\ writeable r = true /\ match_rule req r = Some (sp, sf) /\ p = parts_key sp.
+Proof.
+  intros rules req ps p H I. unfold unset_paths_g in H.
+  destruct (matches writeable rules req) as [|m ms] eqn:EM; [discriminate|]. rewrite <- EM in H. injection H as <-.
+  apply in_map_iff in I. destruct I as ([sp sf] & <- & I). destruct (matches_in _ _ _ _ I) as (r & Ir & A & M).
+  now exists r, sp, sf.
+Qed.
+
+Lemma is_either_class : forall rules req v m ws, is_either rules req v = Some (m, ws) -> set_class rules req v = SEither m ws.
+Proof.
+  intros rules req v m ws H. unfold is_either in H.
+  assert (G : match set_class rules req v with SEither m0 ws0 => Some (m0, ws0) | SDet _ _ => None end = Some (m, ws) ->
+              set_class rules req v = SEither m ws).
+  { destruct (set_class rules req v); [discriminate|]. now intros [= -> ->]. }
+  destruct (literal_matches (matches writeable rules req)) as [lms|]; [|now apply G].
+  destruct (overlapping (map snd lms)); [now apply G|discriminate].
+Qed.
+
+(* every Set the model determines, whatever its outcome: the recorded writes go to instances of filled storage paths
+   of matching writeable rules *)
+Theorem outcome_paths_allowed : forall rules req v ws p x,
+  set_outcome rules req v (ROk, ws) -> determined rules req v -> In (p, x) ws -> allowed_g writeable rules req p.
+Proof.
+  intros rules req v ws p x O D I. unfold set_outcome in O. unfold determined in D.
+  destruct (is_either rules req v) as [[m ws0]|] eqn:E.
+  - destruct O as [O|[_ O]]; [discriminate|]. injection O as ->.
+    apply is_either_class in E. eapply set_class_allowed; [right; exists m; exact E|exact I].
+  - destruct D as [D|D]; [congruence|].
+    destruct (set_writes_g rules req v) as [e ws0] eqn:S. cbn in D.
+    destruct e; try congruence; injection O as <-; try (eapply write_paths_allowed_g; eauto); destruct I.
+Qed.
+
+Lemma set_writes_g_outcome : forall rules req v, is_either rules req v = None ->
+  set_outcome rules req v (set_writes_g rules req v).
+Proof.
+  intros rules req v H. unfold set_outcome. rewrite H. destruct (set_writes_g rules req v) as [[] ws] eqn:S; try reflexivity.
+  cbn. intros X. unfold set_writes_g in S.
+  assert (G : forall ws', (match set_class rules req v with SDet r ws => (r, ws) | SEither _ _ => (RUnsupported, []) end) = (RUnsupported, ws') -> ws' = []).
+  { intros ws'. unfold set_class. destruct (matches writeable rules req) as [|m0 ms0]; [discriminate|].
+    match goal with |- context [fold_left ?f ?l ?a] => destruct (fold_left f l a) as [ews|] end; [|discriminate].
+    match goal with |- context [if ?c then SDet RUnsupported [] else _] => destruct c end; [now intros [= <-]|].
+    destruct (lits_all ews) as [ws0|]; [|now intros [= <-]].
+    match goal with |- context [if ?c then SEither _ _ else _] => destruct c end; [now intros [= <-]|].
+    match goal with |- context [prune_all false ?a ?b] => destruct (prune_all false a b) as [[?|]|] end; discriminate. }
+  destruct (literal_matches (matches writeable rules req)) as [lms|] eqn:EL; [|now apply G].
+  destruct (overlapping (map snd lms)) eqn:EO; [now apply G|].
+  unfold set_writes in S. destruct (matches writeable rules req) as [|m0 ms0] eqn:EM; [congruence|]. rewrite EL, EO in S.
+  match type of S with (if ?c then _ else _) = _ => destruct c; [congruence|] end.
+  match type of S with (if ?c then _ else _) = _ => destruct c; congruence end.
+Qed.
+
+Section RelationProofs.
+Variable valid : tree -> bool.
+Variable rules : list rule.
+
+(* the functional step is one of the relation's steps whenever the Set is not order-dependent *)
+Theorem step_is_rstep : forall st o,
+  (forall i req v, o = OSet i req v -> is_either rules req v = None) ->
+  rstep valid rules st o (fst (step valid rules st o)) (snd (step valid rules st o)).
+Proof.
+  intros st o H. destruct o as [| i req v | i req | i req | i | req v];
+    try (apply rs_other; intros; discriminate).
+  specialize (H i req v eq_refl). cbn [step]. destruct (nth_error (st_txs st) i) as [t|] eqn:N; [|now apply rs_set_skip].
+  pose proof (set_writes_g_outcome rules req v H) as O.
+  destruct (set_writes_g rules req v) as [e ws] eqn:S.
+  destruct e; cbn [fst snd]; try (eapply rs_set_rejected; eauto; discriminate).
+  eapply rs_set_ok; eauto.
+Qed.
+
+(* only a successful Commit changes the committed databag, and what it publishes is valid *)
+Theorem rstep_publishes : forall st o st' b, rstep valid rules st o st' b ->
+  st_bag st' = st_bag st \/
+  exists i t b0, o = OCommit i /\ nth_error (st_txs st) i = Some t /\ tx_commit valid t (st_bag st) = Some b0 /\
+                 st_bag st' = b0 /\ valid (Obj b0) = true /\ b = BBag true b0.
+Proof.
+  intros st o st' b R. destruct R as [st i req v t ws N O | st i req v t e ws N O NE | st i req v N | st o NS]; try now left.
+  destruct o as [| i req v | i req | i req | i | req v]; cbn [step]; try now left.
+  - exfalso. eapply NS; eauto.
+  - left. destruct (nth_error (st_txs st) i); [|reflexivity]. destruct (unset_paths_g rules req) as [[] ps]; reflexivity.
+  - left. now destruct (nth_error (st_txs st) i).
+  - destruct (nth_error (st_txs st) i) as [t|] eqn:N; [|now left].
+    destruct (tx_commit valid t (st_bag st)) as [b0|] eqn:C; [|now left]. right. exists i, t, b0. repeat split; auto.
+    unfold tx_commit in C. destruct (apply_deltas (st_bag st) (tx_deltas t)) as [bb|]; [|discriminate].
+    destruct (valid (Obj bb)) eqn:V; [|discriminate]. now injection C as <-.
+Qed.
+
+(* EVERY history of the relation - any sequence of New / Set / Unset / Get / Commit on any number of transactions, with
+   every outcome the Sets may have: if no Commit reported success, the committed databag is what it was *)
+Theorem rejected_history_unchanged : forall st steps st', rsteps valid rules st steps st' ->
+  (forall o b0, In (o, BBag true b0) steps -> forall i, o <> OCommit i) -> st_bag st' = st_bag st.
+Proof.
+  intros st steps st' R. induction R as [st | st o b st1 r st2 S R IH]; intros NC; [reflexivity|].
+  rewrite IH by (intros o0 b0 I; apply (NC o0 b0); now right).
+  destruct (rstep_publishes _ _ _ _ S) as [E|(i & t & b0 & -> & _ & _ & _ & _ & ->)]; [exact E|].
+  exfalso. apply (NC (OCommit i) b0 (or_introl eq_refl) i). reflexivity.
+Qed.
+
+(* the entry point, every outcome: rejected => committed databag unchanged; accepted => the new databag is valid *)
+Theorem via_view_rejected : forall committed req v b ok, via_view valid rules committed req v (b, ok) ->
+  (ok = false -> b = committed) /\ (ok = true -> valid (Obj b) = true).
+Proof.
+  intros committed req v b ok (e & ds & _ & R).
+  destruct e; try (injection R as -> ->; split; [reflexivity|discriminate]).
+  destruct (tx_commit valid (add_deltas (mkTx committed []) ds) committed) as [b0|] eqn:C.
+  - injection R as -> ->. split; [discriminate|]. intros _. unfold tx_commit in C.
+    destruct (apply_deltas committed _) as [b1|]; [|discriminate]. destruct (valid (Obj b1)) eqn:V; [|discriminate].
+    now injection C as <-.
+  - injection R as -> ->. split; [reflexivity|discriminate].
+Qed.
+
+(* the functional entry point is one of the relation's outcomes when the Set is not order-dependent *)
+Theorem set_via_view_in_relation : forall committed req v, is_either rules req v = None ->
+  via_view valid rules committed req v (set_via_view valid rules committed req v).
+Proof.
+  intros committed req v H. unfold via_view, set_via_view.
+  destruct v as [| z | l].
+  - exists (fst (unset_paths_g rules req)), (map (fun p => (p, Null)) (snd (unset_paths_g rules req))).
+    split; [reflexivity|]. destruct (unset_paths_g rules req) as [[] ps]; reflexivity.
+  - exists (fst (set_writes_g rules req (Atom z))), (snd (set_writes_g rules req (Atom z))). split.
+    + rewrite <- surjective_pairing. now apply set_writes_g_outcome.
+    + destruct (set_writes_g rules req (Atom z)) as [[] ws]; reflexivity.
+  - exists (fst (set_writes_g rules req (Obj l))), (snd (set_writes_g rules req (Obj l))). split.
+    + rewrite <- surjective_pairing. now apply set_writes_g_outcome.
+    + destruct (set_writes_g rules req (Obj l)) as [[] ws]; reflexivity.
+Qed.
+End RelationProofs.
+
+(* ------------------------------------------------------------------ what Get of the same request returns after a Set
+   through several rules *)
+(* mergeNamespaces over a list of values, first to last *)
+Definition merge_all (l : list tree) : option (option tree) :=
+  fold_left (fun acc t => match acc with
+                          | None => None
+                          | Some None => Some (Some t)
+                          | Some (Some old) => match merge t old with Some x => Some (Some x) | None => None end
+                          end) l (Some None).
+
+Definition xval (v : tree) (m : lmatch) : tree := match value_at (snd m) v with Some x => x | None => Null end.
+
+Lemma set_writes_ws : forall rules req v ws, set_writes rules req v = (ROk, ws) ->
+  exists lms, literal_matches (matches writeable rules req) = Some lms /\
+              ws = map (fun m => (fst m, xval v m)) (sort_by fst lms).
+Proof.
+  intros rules req v ws H. unfold set_writes in H.
+  destruct (matches writeable rules req) as [|m ms] eqn:EM; [discriminate|]. rewrite <- EM in H.
+  destruct (literal_matches (matches writeable rules req)) as [lms|] eqn:EL; [|discriminate].
+  destruct (overlapping (map snd lms)); [discriminate|].
+  match type of H with (if ?c then _ else _) = _ => destruct c; [discriminate|] end.
+  match type of H with (if ?c then _ else _) = _ => destruct c; [discriminate|] end.
+  injection H as <-. exists lms. split; [now rewrite <- EM|]. now rewrite map_map.
+Qed.
+
+(* after an accepted Set of v at req through ANY number of literal rules - the same rules being readable and writeable
+   for req, none of the written storage paths touched by a later write of the same Set (no nesting, no duplicates) -
+   Get of req inside the transaction returns exactly the merge, in namespace order, of the written parts put back
+   under their suffixes. (That this merge rebuilds v itself is a fact about trees only, not proved here.) *)
+Theorem view_read_after_write_merge : forall rules req v ws lms t b,
+  set_writes rules req v = (ROk, ws) -> Forall is_set ws ->
+  matches readable rules req = matches writeable rules req ->
+  literal_matches (matches writeable rules req) = Some lms ->
+  (forall ws1 d ws2, ws = ws1 ++ d :: ws2 -> forall d', In d' ws2 -> is_prefix (fst d) (fst d') = false) ->
+  apply_deltas (tx_pristine t) (tx_deltas t) = Some b ->
+  view_get rules (tx_get (add_deltas t ws)) req =
+  match merge_all (map (fun m => nest (snd m) (strip (xval v m))) (sort_by snd lms)) with
+  | None => VErr RError
+  | Some None => VErr RNotFound
+  | Some (Some r) => VOk r
+  end.
+Proof.
+  intros rules req v ws lms t b H F MRW EL NP AD.
+  destruct (set_writes_ws _ _ _ _ H) as (lms' & EL' & Ews). rewrite EL in EL'. injection EL' as <-.
+  destruct (storage_read_after_write rules req v ws b H F) as (b' & A & R).
+  assert (G : forall m, In m lms -> tx_get (add_deltas t ws) (fst m) = BOk (strip (xval v m))).
+  { intros m I. apply (in_sort_by fst) in I. apply in_split in I. destruct I as (l1 & l2 & ES).
+    unfold tx_get, add_deltas. cbn [tx_pristine tx_deltas]. rewrite apply_deltas_app, AD, A.
+    assert (Esplit : ws = map (fun m => (fst m, xval v m)) l1 ++ (fst m, xval v m) :: map (fun m => (fst m, xval v m)) l2).
+    { rewrite Ews, ES, map_app. reflexivity. }
+    apply (R _ (fst m, xval v m) _ Esplit). intros d' I'. exact (NP _ _ _ Esplit d' I'). }
+  unfold view_get. rewrite MRW.
+  destruct (matches writeable rules req) as [|m0 ms0] eqn:EM.
+  { cbn in EL. injection EL as <-. unfold set_writes in H. rewrite EM in H. discriminate. }
+  rewrite EL. cbv zeta. unfold merge_all.
+  assert (FL : forall l acc, (forall m, In m l -> In m lms) ->
+    fold_left (fun (acc : option (option tree)) (m : lmatch) =>
+                 match acc with
+                 | None => None
+                 | Some merged =>
+                     match tx_get (add_deltas t ws) (fst m) with
+                     | BPathErr => Some merged
+                     | BErr => None
+                     | BOk val => match merged with
+                                  | None => Some (Some (nest (snd m) val))
+                                  | Some old => match merge (nest (snd m) val) old with Some x => Some (Some x) | None => None end
+                                  end
+                     end
+                 end) l acc =
+    fold_left (fun acc t0 => match acc with
+                             | None => None
+                             | Some None => Some (Some t0)
+                             | Some (Some old) => match merge t0 old with Some x => Some (Some x) | None => None end
+                             end) (map (fun m => nest (snd m) (strip (xval v m))) l) acc).
+  { induction l as [|m l IH]; intros acc Sub; [reflexivity|]. cbn [fold_left map].
+    rewrite (G m (Sub m (or_introl eq_refl))). rewrite <- IH by (intros m' I'; apply Sub; now right).
+    f_equal; destruct acc as [[old|]|]; reflexivity. }
+  rewrite FL; [reflexivity|]. intros m I. exact (proj1 (in_sort_by snd lms m) I).
 Qed.
